@@ -11,7 +11,7 @@
    and the selected tasks are examined in the order given except where dependencies require otherwise
    (C12_serial_order: over an acyclic table; false over a cyclic one, C12_serial_order_needs_acyclic).
    The same order on real runs (delayed tasks included) is checked by harness/c12.py. *)
-From DoitV Require Import Base Select SelectP.
+From DoitV Require Import Base Select SelectP CliP.
 Open Scope N_scope.
 
 Section Statements.
@@ -234,6 +234,89 @@ Proof.
 Qed.
 Print Assumptions C12_single.
 
+(* ================================================================== the command line in front of the selection
+   Model/Select.v Section Cli (DoitMain.process_args / run, the option parser of `doit run`), Proofs/CliP.v.
+   `doit <argv>`, with or without the word `run`: which arguments reach the selection.  Every argument is an opaque
+   name: the empty string, a blank, `A` next to a task `a`, `a ` (trailing blank) are names like any other, so each
+   statement covers them.  is_var s = (not s.startswith('-')) and '=' in s: such an argument is a command line
+   variable by documented design, never a selection element.  Domain of the model: see Model/Select.v. *)
+Section CliStatements.
+Variable has_star : name -> bool.
+Variable matches : name -> name -> bool.
+Variable basename_of : name -> name.
+Variable re_match : name -> name -> bool.
+Variable regex_name : name -> name -> name.
+Variable is_regex_name : name -> bool.
+Variable is_opt : name -> bool.
+Variable is_var : name -> bool.
+Variable is_run : name -> bool.
+Variable run_flag : name -> option rflag.
+
+Notation process_args := (process_args is_var).
+Notation cli_split := (cli_split is_opt is_var is_run run_flag).
+Notation split_of := (split_of is_opt is_var is_run run_flag).
+Notation doit_main := (doit_main has_star matches basename_of re_match regex_name is_regex_name is_opt is_var is_run run_flag).
+Notation select_core := (select_core has_star matches basename_of re_match regex_name is_regex_name is_opt).
+Notation init := (init matches).
+Notation plain_sel := (plain_sel has_star is_opt).
+
+(* how the command line is cut: its non-variable arguments, in order, are  [run] ++ options ++ positional;  the
+   options are tokens starting with '-' that `doit run` knows, the positional part starts at the first token that
+   does not start with '-'; --single / --auto-delayed-regex are on iff one of the options spells them.  If there is
+   no such cut, an option token unknown to `doit run` is on the command line (CmdParseError, exit code 3). *)
+Theorem C12_cli_split_exact : forall argv,
+  (forall single auto pos, cli_split argv = Some (single, auto, pos) -> split_of argv single auto pos) /\
+  (cli_split argv = None -> exists o, In o argv /\ is_var o = false /\ is_opt o = true /\ run_flag o = None).
+Proof. intros argv. split; [apply cli_split_exact | apply cli_split_None]. Qed.
+
+(* nothing is invented, no variable becomes a name, the order given is kept: the positional arguments are a
+   suffix of the non-variable arguments *)
+Theorem C12_cli_pos_from_argv : forall argv single auto pos,
+  cli_split argv = Some (single, auto, pos) ->
+  (exists pre, process_args argv = pre ++ pos) /\ forall x, In x pos -> In x argv /\ is_var x = false.
+Proof. exact (cli_pos_from_argv is_opt is_var is_run run_flag). Qed.
+
+(* no name is dropped, in whatever position: an argument that is no variable, does not start with '-' and is not
+   the word `run` is an element of the selection handed to TaskControl.process *)
+Theorem C12_cli_name_never_dropped : forall argv single auto pos x,
+  cli_split argv = Some (single, auto, pos) ->
+  In x argv -> is_var x = false -> is_opt x = false -> is_run x = false -> In x pos.
+Proof. exact (cli_name_never_dropped is_opt is_var is_run run_flag). Qed.
+
+(* DOIT_CONFIG['default_tasks'] plays a part only when the command line names nothing: with such an argument x
+   (the empty string included) the outcome does not depend on default_tasks; and when nothing is named, the
+   selection is default_tasks (all tasks without it: C12_default) *)
+Theorem C12_cli_default_only_when_nothing_named : forall argv tb,
+  (forall d x, In x argv -> is_var x = false -> is_opt x = false -> is_run x = false ->
+     doit_main argv d tb = doit_main argv None tb) /\
+  (forall d single auto, cli_split argv = Some (single, auto, []) -> doit_main argv d tb = select_core auto single d tb).
+Proof.
+  intros argv tb. split.
+  - intros d x. exact (cli_default_only_when_nothing_named has_star matches basename_of re_match regex_name is_regex_name
+                         is_opt is_var is_run run_flag argv d tb x).
+  - intros d single auto. exact (cli_nothing_named has_star matches basename_of re_match regex_name is_regex_name
+                                   is_opt is_var is_run run_flag argv d tb single auto).
+Qed.
+
+(* unknown names are rejected before anything runs, from the command line down: over a task list without delayed
+   creators and a command line on which nothing is a task argument, if the runner is started at all (ROk) then
+   every argument that is a name (no variable, no option token, not the word `run`, no pattern) is the name of a
+   task or a declared target string; with C12_unknown_rejected the other outcomes carry no selected list *)
+Theorem C12_cli_unknown_rejected : forall argv d tb c single auto pos tb' tg' selected,
+  init tb = inr c -> no_loader tb ->
+  cli_split argv = Some (single, auto, pos) -> plain_sel (c_tasks c) pos ->
+  doit_main argv d tb = ROk tb' tg' selected ->
+  forall x, In x argv -> is_var x = false -> is_opt x = false -> is_run x = false -> has_star x = false ->
+            known (c_targets c) (c_tasks c) x.
+Proof. exact (cli_unknown_rejected has_star matches basename_of re_match regex_name is_regex_name is_opt is_var is_run run_flag). Qed.
+
+End CliStatements.
+Print Assumptions C12_cli_split_exact.
+Print Assumptions C12_cli_pos_from_argv.
+Print Assumptions C12_cli_name_never_dropped.
+Print Assumptions C12_cli_default_only_when_nothing_named.
+Print Assumptions C12_cli_unknown_rejected.
+
 (* ---- non-vacuity: a concrete task list on which the hypotheses hold and every form of selection occurs.
    strings: 0 'a'  1 'g'  2 'g:x'  3 'g:y'  4 'b'  5 'out.txt' (target of b)  6 'g:*'  7 'zz'  8 'in.txt'
             20 'p' (declares pos_arg)  21 'o' (options -f, -v VALUE)  22 '-f'  23 '-v'  24 'val'  25 '*' (matches p, o)  26 '-z'
@@ -271,6 +354,36 @@ Example C12_example_select :
   (exists tb tg, ex_select false [] (Some [5]) = ROk tb tg [4]) /\
   (exists tb tg, ex_select false [] None = ROk tb tg [0; 1; 2; 3; 4]).
 Proof. vm_compute. repeat split; eauto. Qed.
+
+(* the command line.  strings as above plus 30 '' (the empty string)  31 'x=1'  32 'run'  33 '-s'  34 'A'  35 '-Z':
+   `doit x=1 run -s a ''`: '' is rejected;  `doit ''` with default_tasks [a]: '' is rejected, the default is not used;
+   `doit x=1` with default_tasks [a]: only a variable, a is selected;  `doit a x=1 b`: [a; b];  `doit '' run a`: ''
+   comes first, so `run` is a name too and '' is rejected;  `doit a A`: A is rejected;  `doit run -Z a`: unknown option.
+   The hypotheses of C12_cli_name_never_dropped / C12_cli_unknown_rejected hold for argv = [x=1; run; -s; a; b], x = b *)
+Definition ex_var (s : name) : bool := match s with 31 => true | _ => false end.
+Definition ex_run (s : name) : bool := match s with 32 => true | _ => false end.
+Definition ex_flag (s : name) : option rflag := match s with 33 => Some FSingle | _ => None end.
+Definition ex_opt_cli (s : name) : bool := match s with 22 | 23 | 26 | 33 | 35 => true | _ => false end.
+Definition ex_main argv dflt :=
+  doit_main ex_star ex_match ex_base ex_false2 ex_rn ex_false1 ex_opt_cli ex_var ex_run ex_flag argv dflt ex_tb.
+Example C12_example_cli :
+  ex_main [31; 32; 33; 0; 30] None = RNotFound 30 /\
+  ex_main [30] (Some [0]) = RNotFound 30 /\
+  (exists tb tg, ex_main [31] (Some [0]) = ROk tb tg [0]) /\
+  (exists tb tg, ex_main [0; 31; 4] None = ROk tb tg [0; 4]) /\
+  ex_main [30; 32; 0] None = RNotFound 30 /\
+  ex_main [0; 34] None = RNotFound 34 /\
+  ex_main [32; 35; 0] None = RParseErr /\
+  cli_split ex_opt_cli ex_var ex_run ex_flag [31; 32; 33; 0; 4] = Some (true, false, [0; 4]) /\
+  (exists tb tg, ex_main [31; 32; 33; 0; 4] None = ROk tb tg [0; 4] /\ task_dep_of tb 0 = []) /\
+  (exists c, Select.init ex_match ex_tb = inr c /\ SelectP.plain_sel ex_star ex_opt_cli (c_tasks c) [0; 4] /\
+             known (c_targets c) (c_tasks c) 4).
+Proof.
+  repeat match goal with |- _ /\ _ => split end; try (vm_compute; eauto; fail).
+  eexists. split; [vm_compute; reflexivity|]. split.
+  - unfold SelectP.plain_sel. repeat constructor; intros Hs t Hl; vm_compute in Hl; inversion Hl; reflexivity.
+  - left. vm_compute. reflexivity.
+Qed.
 
 (* two spellings of one path are two names.  strings as above plus 9 './out.txt'.  b declares the target
    './out.txt' (9), a has file_dep 'out.txt' (5):  `doit run ./out.txt` selects b;  `doit run out.txt` is refused
@@ -532,3 +645,28 @@ Proof.
   - intros a [<-|[]] Hin. simpl in Hin. intuition discriminate.
 Qed.
 Print Assumptions C12_serial_order_needs_acyclic.
+
+From DoitV Require Import Parallel ParClosureP WholeOutcomeEx.
+(* the same for the PARALLEL runners (Proofs/ParClosureP.v): every event of the merged log that names a task --
+   reporter / dep_manager events, PStart / PEnd / PTdRun in a worker, the marker of the interrupt that ended the
+   run -- is about a selected task or a task reachable from one through effective dependencies; any table, flags,
+   oracles, flavour, worker count, schedule and fuel (hence every prefix of the run)
+   [pev_task (PE e) = ev_task e; pev_task (PStart k w) = pev_task (PEnd k w) = pev_task (PTdRun k w) = Some k] *)
+Theorem C12_nothing_outside_closure_parallel :
+  forall tasks wake_rank calc_rank continue_ always proc selection fuel nprocs sched pe k,
+  In pe (fst (run_parallel tasks wake_rank calc_rank continue_ always proc fuel nprocs sched selection)) ->
+  pev_task pe = Some k -> needed tasks selection k.
+Proof. exact parallel_closure_events. Qed.
+Print Assumptions C12_nothing_outside_closure_parallel.
+
+Theorem C12_nothing_started_outside_closure_parallel :
+  forall tasks wake_rank calc_rank continue_ always proc selection fuel nprocs sched k w,
+  In (PStart k w) (fst (run_parallel tasks wake_rank calc_rank continue_ always proc fuel nprocs sched selection)) ->
+  needed tasks selection k.
+Proof. exact parallel_closure_starts. Qed.
+Print Assumptions C12_nothing_started_outside_closure_parallel.
+
+(* non-vacuity: in the run of ParLiveEx.exl the non-selected task 1 is started in a worker; it is needed *)
+Example C12_parallel_closure_nonvacuous :
+  In (PStart 1 0) (fst WholeOutcomeEx.exl_par) \/ In (PStart 1 1) (fst WholeOutcomeEx.exl_par).
+Proof. vm_compute. tauto. Qed.
